@@ -1367,6 +1367,26 @@ def gen_ib_rr(rng) -> dict:
             "script": [None if x is None else x.hex() for x in script], "cls": "+".join(sorted(set(tags)))}
 
 
+def retry_boundary_cases() -> list:
+    """k bad items (each kind) before a good reply, k = 0..13 (across MAX_RETRY_COUNT); every split point of a reply."""
+    cases = []
+    good = ref_ib_encode(162, 7, 8, 0x20, b"\x5e\x0a")
+    bads = {"timeout": None, "bad-crc": good[:-3] + bytes([good[-3] ^ 1]) + good[-2:], "wrong-src": ref_ib_encode(162, 8, 8, 0x20, b"x"),
+            "wrong-dst": ref_ib_encode(161, 7, 8, 0x20, b"x"), "garbage": b"\r\x01\n"}
+    for tag, bad in bads.items():
+        for k in range(0, 14):
+            sc = [None if bad is None else bad.hex()] * k + [good.hex()]
+            for op in ("rr", "get"):
+                cases.append({"kind": "ib_rr", "op": op, "tg": 0, "dest": 7, "t": 4, "reg": 0x20, "data": "", "none": False,
+                              "script": sc, "cls": tag})
+            cases.append({"kind": "ib_rr", "op": "rr", "tg": 0, "dest": 7, "t": 4, "reg": 0x20, "data": "", "none": False,
+                          "script": sc[:-1], "cls": tag})
+    for cut in range(1, len(good)):
+        cases.append({"kind": "ib_rr", "op": "get", "tg": 0, "dest": 7, "t": 4, "reg": 0x20, "data": "", "none": False,
+                      "script": [good[:cut].hex(), good[cut:].hex()], "cls": "good"})
+    return cases
+
+
 def live_packets() -> dict:
     ap, pk = _apt_mods()
     import inspect
@@ -1612,6 +1632,7 @@ class C15B(Prop):
         for a in IB_SPECIAL + (0x4A, 0x4D, 0x9E, 0x41):
             for b in IB_SPECIAL + (0x4A, 0x4D, 0x9E, 0x41):
                 cases.append({"kind": "ib_codec", "d": 13, "s": 162, "t": 8, "r": 0x5E, "data": bytes([a, b]).hex()})
+        cases += retry_boundary_cases()
         cases += [gen_ib_codec(rng) for _ in range(ctx.scale(12000, 150000))]
         cases += [gen_ib_wire(rng) for _ in range(ctx.scale(20000, 300000))]
         cases += [gen_ib_rr(rng) for _ in range(ctx.scale(12000, 150000))]
@@ -1666,19 +1687,7 @@ class C15B(Prop):
             for i in range(len(w)):
                 for mask in (0x01, 0x80, 0x54):
                     cases.append({"kind": "ib_wire", "wire": (w[:i] + bytes([w[i] ^ mask]) + w[i + 1:]).hex(), "cls": "wire-flip"})
-        # request/response: k bad items (each kind) before a good reply, k = 0..12; every split point of the reply
-        good = ref_ib_encode(162, 7, 8, 0x20, b"\x5e\x0a")
-        bads = {"timeout": None, "bad-crc": good[:-3] + bytes([good[-3] ^ 1]) + good[-2:], "wrong-src": ref_ib_encode(162, 8, 8, 0x20, b"x"),
-                "wrong-dst": ref_ib_encode(161, 7, 8, 0x20, b"x")}
-        for tag, bad in bads.items():
-            for k in range(0, 13):
-                sc = [None if bad is None else bad.hex()] * k + [good.hex()]
-                for op in ("rr", "get"):
-                    cases.append({"kind": "ib_rr", "op": op, "tg": 0, "dest": 7, "t": 4, "reg": 0x20, "data": "", "none": False,
-                                  "script": sc, "cls": tag})
-        for cut in range(1, len(good)):
-            cases.append({"kind": "ib_rr", "op": "get", "tg": 0, "dest": 7, "t": 4, "reg": 0x20, "data": "", "none": False,
-                          "script": [good[:cut].hex(), good[cut:].hex()], "cls": "good"})
+        cases += retry_boundary_cases()
         # APT / T2: a denser random sweep plus all short T2 streams over a small record alphabet with all splits
         packets = live_packets()
         cases += [gen_apt_wp(ctx.rng) for _ in range(1500)]
